@@ -171,12 +171,14 @@ func (e Ev) coq(ind string) string {
 // ---------------------------------------------------------------- package facts
 
 type pkgInfo struct {
-	fset     *token.FileSet
-	funcs    map[string]*ast.FuncDecl            // package-level functions
-	methods  map[string]map[string]*ast.FuncDecl // receiver type -> name -> decl
-	mutating map[string]bool                     // method name -> may modify its receiver (any type)
-	readonly map[string]bool                     // method name -> never modifies (all types defining it)
-	mutBy    map[string]map[string]bool          // receiver type -> method -> modifies its receiver
+	fset        *token.FileSet
+	funcs       map[string]*ast.FuncDecl            // package-level functions
+	methods     map[string]map[string]*ast.FuncDecl // receiver type -> name -> decl
+	mutating    map[string]bool                     // method name -> may modify its receiver (any type)
+	readonly    map[string]bool                     // method name -> never modifies (all types defining it)
+	mutBy       map[string]map[string]bool          // receiver type -> method -> modifies its receiver
+	bytesFields map[string]bool                     // struct fields that are maps / slices of []byte
+	files       []*ast.File
 }
 
 func recvTypeName(fd *ast.FuncDecl) string {
@@ -309,6 +311,7 @@ func loadPkg(dir string) (*pkgInfo, error) {
 		if err != nil {
 			return nil, err
 		}
+		p.files = append(p.files, f)
 		for _, d := range f.Decls {
 			fd, ok := d.(*ast.FuncDecl)
 			if !ok {
@@ -1888,6 +1891,23 @@ func main() {
 	}
 	emit("skels", skels)
 	emit("helper_skels", helpers)
+	// byte-slice aliasing facts
+	p.collectBytesFields(p.files)
+	cmdOf := map[string][]string{}
+	for _, sk := range skels {
+		cmdOf[sk.Func] = append(cmdOf[sk.Func], sk.Name)
+	}
+	inplace, escaping := p.aliasFacts(cmdOf)
+	pairList := func(fs []aliasFact) string {
+		items := []string{}
+		for _, f := range fs {
+			items = append(items, "("+coqStr(f.Where)+", "+coqStr(f.What)+")")
+		}
+		return coqList(items)
+	}
+	b.WriteString("(* stored byte slices: in-place writes, and replies that hand out the stored slice *)\n")
+	b.WriteString("Definition inplace_byte_writes : list (string * string) :=\n " + pairList(inplace) + ".\n")
+	b.WriteString("Definition escaping_byte_replies : list (string * string) :=\n " + pairList(escaping) + ".\n\n")
 	usesMap, sorts, retSorted := p.sortedShape()
 	plain, atomicN, keysIdx := p.countFacts()
 	facts := []struct {
@@ -1924,7 +1944,7 @@ func main() {
 		fmt.Fprintln(os.Stderr, err)
 		os.Exit(1)
 	}
-	js, _ := json.MarshalIndent(map[string]interface{}{"skels": skels, "helpers": helpers,
+	js, _ := json.MarshalIndent(map[string]interface{}{"skels": skels, "helpers": helpers, "inplace": inplace, "escaping": escaping,
 		"facts": func() map[string]bool {
 			m := map[string]bool{}
 			for _, f := range facts {
